@@ -536,6 +536,7 @@ func c17Rows(c *Ctx, p *Prog) {
 		return
 	}
 	site := p.pos(fn.Pos())
+	tablesFn := fn
 	// the dynamic call of the delta test
 	var test *ssa.Call
 	eachInstr(fn, func(_ *ssa.BasicBlock, in ssa.Instruction) {
@@ -545,6 +546,27 @@ func c17Rows(c *Ctx, p *Prog) {
 			}
 		}
 	})
+	if test == nil {
+		// the comparison of one row moved into a function of the package that Tables calls (row.compare(old, new, …))
+		var callees []*ssa.Function
+		eachInstr(fn, func(_ *ssa.BasicBlock, in ssa.Instruction) {
+			if call, ok := in.(*ssa.Call); ok {
+				if h := call.Call.StaticCallee(); h != nil && h.Pkg == fn.Pkg && h.Blocks != nil && h != fn {
+					callees = append(callees, h)
+				}
+			}
+		})
+		for _, h := range callees {
+			eachInstr(h, func(_ *ssa.BasicBlock, in ssa.Instruction) {
+				if call, ok := in.(*ssa.Call); ok && call.Call.StaticCallee() == nil && !call.Call.IsInvoke() && test == nil {
+					if sig, ok := call.Call.Value.Type().Underlying().(*types.Signature); ok && sig.Results().Len() == 2 && isFloat(sig.Results().At(0).Type()) && isErrorType(sig.Results().At(1).Type()) {
+						test = call
+						fn = h
+					}
+				}
+			})
+		}
+	}
 	if test == nil {
 		c.Undecided(R, "rows:test-call", site, "no call of the configured delta test found")
 		return
@@ -653,6 +675,24 @@ func c17Rows(c *Ctx, p *Prog) {
 				t := !v
 				neg = &t
 			case s.Op == "binop" && s.Tok == token.EQL && strings.Contains(str, "Metric") && strings.Contains(str, "\"speed\""):
+				t := !v
+				notSpeed = &t
+			case s.Op == "binop" && s.Tok == token.EQL && s.Args[0].Op == "param" && strings.Contains(str, "\"speed\"") && fn != tablesFn && func() bool {
+				// the metric handed to the row's comparison function: table.Metric at the call in Tables
+				okArg := false
+				eachInstr(tablesFn, func(_ *ssa.BasicBlock, in ssa.Instruction) {
+					if call, isCall := in.(*ssa.Call); isCall && call.Call.StaticCallee() == fn {
+						for i, prm := range fn.Params {
+							if prm.Name() == s.Args[0].Name && i < len(call.Call.Args) {
+								if f, _ := loadOfField(call.Call.Args[i]); f != nil && f.Name() == "Metric" {
+									okArg = true
+								}
+							}
+						}
+					}
+				})
+				return okArg
+			}():
 				t := !v
 				notSpeed = &t
 			case s.Op == "binop" && s.Tok == token.EQL && strings.Contains(s.Args[0].String(), ".Unit") && s.Args[1].isConst() && s.Args[1].String() == "\"MB/s\"":
